@@ -961,6 +961,28 @@ func fragmentFunc(fset *token.FileSet, fd *ast.FuncDecl, sp spec) *ast.FuncDecl 
 	}
 	var found []ast.Stmt
 	matches := 0
+	if fr.Field != "" {
+		// an expression fragment: the initialiser of the field fr.Field in the one composite literal that sets it
+		var val ast.Expr
+		ast.Inspect(fd.Body, func(n ast.Node) bool {
+			if kv, ok := n.(*ast.KeyValueExpr); ok && isIdent(kv.Key, fr.Field) {
+				matches++
+				val = kv.Value
+			}
+			return true
+		})
+		if matches != 1 {
+			fail(fset.Position(fd.Pos()), "fragment of %s: %d composite literals set the field %s", sp.Func, matches, fr.Field)
+		}
+		src := fmt.Sprintf("package p\nfunc f(%s) (%s) { return nil }\n", strings.Join(fr.Params, ", "), fr.FieldType)
+		pf, err := parser.ParseFile(fset, "fragment of "+sp.File+":"+sp.Func, src, parser.SkipObjectResolution)
+		if err != nil {
+			fail(fset.Position(fd.Pos()), "fragment signature: %v", err)
+		}
+		nf := pf.Decls[0].(*ast.FuncDecl)
+		nf.Body.List[0].(*ast.ReturnStmt).Results = []ast.Expr{val}
+		return nf
+	}
 	if fr.Case != "" {
 		// the whole body of the one case clause (of a value switch) with this label text
 		ast.Inspect(fd.Body, func(n ast.Node) bool {
@@ -1014,6 +1036,18 @@ func fragmentFunc(fset *token.FileSet, fd *ast.FuncDecl, sp spec) *ast.FuncDecl 
 		}
 		ptypes[nt[0]] = nt[1]
 	}
+	isParam := map[string]bool{}
+	for n := range ptypes {
+		isParam[n] = true
+	}
+	for _, p := range fr.Locals {
+		nt := strings.SplitN(p, " ", 2)
+		if len(nt) != 2 || isParam[nt[0]] {
+			fail(fset.Position(fd.Pos()), "fragment local %q", p)
+		}
+		ptypes[nt[0]] = nt[1]
+	}
+	abstracted := map[string]int{}
 	var rts []string
 	for _, r := range fr.Results {
 		t, ok := ptypes[r]
@@ -1088,6 +1122,27 @@ func fragmentFunc(fset *token.FileSet, fd *ast.FuncDecl, sp spec) *ast.FuncDecl 
 					fail(fset.Position(t.Pos()), "return inside the fragment of %s (fragSpec.EarlyReturn is %q)", sp.Func, fr.EarlyReturn)
 				}
 				out = append(out, &ast.ReturnStmt{Return: t.Return, Results: final.Results})
+			case *ast.AssignStmt:
+				skip := false
+				for _, a := range fr.Abstract {
+					if line(t) == a {
+						// not translated: what it defines are parameters of the fragment
+						if t.Tok != token.DEFINE {
+							fail(fset.Position(t.Pos()), "abstracted statement %q is not a definition", a)
+						}
+						for _, l := range t.Lhs {
+							id, ok := l.(*ast.Ident)
+							if !ok || id.Name != "_" && !isParam[id.Name] {
+								fail(fset.Position(t.Pos()), "abstracted statement %q defines something that is not a parameter of the fragment", a)
+							}
+						}
+						abstracted[a]++
+						skip = true
+					}
+				}
+				if !skip {
+					out = append(out, s)
+				}
 			case *ast.BlockStmt:
 				out = append(out, blk(t))
 			case *ast.IfStmt:
@@ -1130,6 +1185,11 @@ func fragmentFunc(fset *token.FileSet, fd *ast.FuncDecl, sp spec) *ast.FuncDecl 
 		return out
 	}
 	nf.Body.List = append(rewrite(found), nf.Body.List...)
+	for _, a := range fr.Abstract {
+		if abstracted[a] != 1 {
+			fail(fset.Position(fd.Pos()), "fragment of %s: the abstracted statement %q occurs %d times in it", sp.Func, a, abstracted[a])
+		}
+	}
 	return nf
 }
 
